@@ -26,6 +26,10 @@ CHECKS = {
    technique="TLA+ EventPipe: abstract notification rule + pipeline model (record built from a pooled context, serialised later) checked by TLC; real webhook sender -> collector; every request outcome with its notifications validated by TLC (EventTrace); gated hold of the async sender",
    text="EventPipe states the rule (exactly one right notification per affected key of a successful object-changing request, none for failures, filter with wildcard fallback) and models the pipeline in which the record is built from the pooled request context and serialised asynchronously; TLC shows ExactlyOneRightEvent holds iff the record holds copies. Against the real gateway with its real webhook sender posting to the harness's collector: sequential programs of succeeding and failing put / copy / multipart completion / delete / batch delete with a per-key failure / put- and delete-tagging, 16 concurrent clients, several filter files, and a gated schedule that holds a notification before serialisation while further requests reuse the context. Each request outcome with the notifications attributed to it is a trace line validated by TLC.",
    note="Webhook sender only (Kafka/NATS cannot run offline); attribution by unique key; quiescence by a 400 ms idle period; versioned notifications (versionId) not compared."),
+ "C14": dict(design="5/C14",
+   technique="TLA+ operators S3Auth!GlobMatch / PolicyAllows / DocVerdict: TLC checks lemmas and enumerates the bounded pattern x subject, policy x query and invalid-document spaces as vectors, replayed into auth.Resources.Match, VerifyBucketPolicy, ValidatePolicyDocument and real PUT/GET ?policy plus user requests; random larger cases validated by TLC (S3AuthTrace)",
+   text="TLC checks order-independence of deny-overrides, Allow/Deny monotonicity, scan-agreement and glob = position-automaton on the definitions, and emits the complete bounded input spaces with expected verdicts (patterns <= 4 over {a,b,/,*,?} x subjects <= 5, plus subjects containing * and ?; every policy of <= 2 statements over up to 592 statement forms x 57 requests in 4 JSON shapes; 144 invalid/valid/unspecified documents). Each vector is executed against the exported evaluators; a seeded sample of policies and all documents go end-to-end against a gateway subprocess with non-admin users (a refused document must leave the previous policy stored and enforced); random larger observations are validated by TLC as a trace, with corrupted lines that must be rejected on every run.",
+   note="ASCII only (multi-byte ? is recorded as an observation); 3-statement policies covered by lemmas and random traces, not exhaustive vectors; 'allowed' means not 403 AccessDenied; documents the statement is silent about are not judged; nondeterministic validation is detected by repetition (300-1000 direct calls, 120-250 PUTs)."),
 }
 NOT_YET = {}
 def main():
